@@ -34,6 +34,8 @@ type vfProfile struct {
 	AofFailPct int  // share of steps at which the append file is broken / healed (C11)
 	AckRelock  bool // allow the require-ack flag on re-entrant re-locks of an established hold
 	AckData    bool // allow value operations on require-ack requests
+	NoPipeline bool // never generate PIPELINE value operations
+	NoRelock   bool // never address a LockId that currently holds the key (no re-entrant re-locks, no updates)
 }
 
 var vfTimes = []uint16{0, 1, 1, 2, 2, 3, 3, 4, 5, 7, 8, 9, 10}
@@ -99,7 +101,7 @@ func (g *vfGen) lockOp() vfOp {
 	k := g.keyState(op.Db, op.Key)
 	// choose a LockId: mostly a free one, sometimes a current holder (re-entrant / update)
 	pick := -1
-	if k != nil && len(k.Holds) > 0 && r.Chance(25+g.p.UpdatePct) {
+	if k != nil && len(k.Holds) > 0 && r.Chance(25+g.p.UpdatePct) && !g.p.NoRelock {
 		pick = k.Holds[r.Intn(len(k.Holds))].LockId
 		if g.sh.e.lockIdBusy(op.Db, op.Key, pick) {
 			pick = -1
@@ -112,6 +114,9 @@ func (g *vfGen) lockOp() vfOp {
 				continue
 			}
 			if g.sh.e.lockIdBusy(op.Db, op.Key, c) {
+				continue
+			}
+			if g.p.NoRelock && k != nil && k.hold(c) != nil {
 				continue
 			}
 			pick = c
@@ -198,6 +203,9 @@ func (g *vfGen) lockOp() vfOp {
 	if r.Chance(4) {
 		op.Flag |= protocol.LOCK_FLAG_CONCURRENT_CHECK
 	}
+	if g.p.NoRelock {
+		op.Flag &^= protocol.LOCK_FLAG_UPDATE_WHEN_LOCKED
+	}
 	// require-ack together with update answers asynchronously through the
 	// ack path: not generated (update is not part of C11's quantifier)
 	if op.TFlag&protocol.TIMEOUT_FLAG_REQUIRE_ACKED != 0 {
@@ -254,7 +262,7 @@ func (g *vfGen) typedOp(t int, depth int) *vfDataOp {
 			prop = []byte{}
 		}
 	}
-	if depth == 0 && r.Chance(12) {
+	if depth == 0 && r.Chance(12) && !g.p.NoPipeline {
 		n := r.Range(1, 3)
 		d := &vfDataOp{Type: protocol.LOCK_DATA_COMMAND_TYPE_PIPELINE}
 		for i := 0; i < n; i++ {
